@@ -243,7 +243,10 @@ def transitions(chk, prog):
         exp['max_received_ttl'] = (r'Option::Some\(%s\)' % TTL) if mr == 0 else \
             r'Option::Some\(TimeToLive\(Max\((field:0\(self\.max_received_ttl\), %s|%s, field:0\(self\.max_received_ttl\))\)\)\)' % (TTL, TTL)
         tt = d.get('discr(self.target_ttl)')
+        if isinstance(tt, tuple) and tt[0] == 'ne' and set(tt[1]) == {1}:
+            tt = 0          # Option has two variants: "not Some" is None
         TT = r'field:0\(self\.target_ttl\)'
+        unchanged = set()   # fields whose specified new value is the old one: leaving them alone or storing them back is the same transition
         lt = _cmp(d, 'Lt', TTL, TT)      # ttl < target_ttl ?
         if tt is None:
             tt_c = cdec(o).get('discr(self.target_ttl)')
@@ -255,22 +258,27 @@ def transitions(chk, prog):
                 # the smaller of the two may also be taken with min(): the same function of (known, ttl)
                 exp['target_ttl'] = r'Option::Some\(TimeToLive\(Min\((%s(\.0)?, %s(\.0)?|%s(\.0)?, %s(\.0)?)\)\)\)' % (TT, TTL, TTL, TT)
             else:
-                exp['target_ttl'] = (r'Option::Some\(%s\)' % TTL) if lt else (r'Option::Some\(%s\)' % TT)
+                exp['target_ttl'] = (r'Option::Some\(%s\)' % TTL) if lt else (r'Option::Some\(%s\)|self\.target_ttl' % TT)
+                if not lt:
+                    unchanged.add('target_ttl')
         else:
             if tt == 0:
-                exp['target_ttl'] = r'Option::None'
+                exp['target_ttl'] = r'Option::None|self\.target_ttl'
+                unchanged.add('target_ttl')
             elif lt is None:
                 exp['target_ttl'] = None
             else:
-                exp['target_ttl'] = (r'Option::Some\(%s\)' % TT) if lt else r'Option::None'
+                exp['target_ttl'] = (r'Option::Some\(%s\)|self\.target_ttl' % TT) if lt else r'Option::None'
+                if lt:
+                    unchanged.add('target_ttl')
         row = 'awaited:is_target=%s,target_ttl=%s,lt=%s,max_recv=%s' % (is_t, tt, lt, mr)
         for fld, rx in exp.items():
             got = wd.get(fld, [])
             if rx is None or is_t is None:
                 chk.fail('R4', row + ':' + fld, fn_loc(fcp), 'complete_probe decides %s on conditions outside the specified '
                          'transition (decisions %s)' % (fld, dec), key='R4|unknown-decision|' + fld)
-            elif len(got) == 1 and re.fullmatch(rx, got[0]):
-                chk.ok('R4', row + ':' + fld, got[0][:120])
+            elif (len(got) == 1 and re.fullmatch(rx, got[0])) or (not got and fld in unchanged):
+                chk.ok('R4', row + ':' + fld, (got[0] if got else 'unchanged')[:120])
             else:
                 chk.fail('R4', row + ':' + fld, fn_loc(fcp),
                          'on an Awaited slot with %s, TracerState.%s becomes %s; the transition requires %s' % (
